@@ -399,7 +399,9 @@ pub fn c02(tier: Tier) -> i32 {
 pub fn c08(tier: Tier) -> i32 {
     let run = Run::new("C08", "model_checking", tier);
     let mut models = Vec::new();
-    for (sd, dq, dt) in [("S0", 5usize, 7usize), ("S1", 4, 6)] {
+    // (branching factor ~20: three to_self_delay values x five blob kinds x two users; depth 4 / 3 is what
+    // a quick run completes, the thorough tier goes to 7 / 6 within its budget)
+    for (sd, dq, dt) in [("S0", 4usize, 7usize), ("S1", 3, 6)] {
         let mut a = Alphabet::basic();
         a.users = vec![1, 2];
         a.disps = vec![1];
@@ -426,7 +428,10 @@ pub fn c08(tier: Tier) -> i32 {
             if tier == Tier::Quick { dq } else { dt },
         ));
     }
-    run_models(&run, models, budget(tier, 40, 500));
+run_models(&run, models, budget(tier, 34, 500));
+    let (schedules, scenarios) = crate::checks_s::receipts_under_schedules(&run, tier, budget(tier, 10, 120));
+    run.set("schedules_checked_for_receipt_binding", json!(schedules));
+    run.set("scenarios_checked_for_receipt_binding", json!(scenarios));
     run.finish()
 }
 
